@@ -65,14 +65,11 @@ class JaggedArray:
                         shapes.append(numpyArray.shape)
                         offset += numpyArray.size
                         flattenedArray.extend(numpyArray.flatten())
-                    except:  # noqa: E722
-                        # numpy might fail if it's jagged
-                        flattenedList = self.flatten(arr)
-                        shapes.append(
-                            len(flattenedList),
-                        )
-                        offset += len(flattenedList)
-                        flattenedArray.extend(flattenedList)
+                    except ValueError as ee:
+                        # a nested ragged entry cannot be rebuilt from one shape: refuse it rather than flatten it
+                        raise ValueError(
+                            f"Cannot store nested ragged entry {i} of parameter `{paramName}` in a JaggedArray"
+                        ) from ee
             elif isinstance(arr, (int, float, np.integer, np.floating)):
                 offsets.append(offset)
                 shapes.append((1,))
